@@ -1,12 +1,12 @@
 """C07 - sequence numbers persist across connections and reset only when agreed.
-Family "life" of Session.tla; monitors C07_*."""
+Family "reset" of Session.tla; monitors C07_*."""
 from lib import common, sessfam
 
 LEVEL = 'model_checking'
 PID = 'C07'
-FAMILY = 'life'
+FAMILY = 'reset'
 PROPS = ['P_C07']
-BASE = [{'role': 'acc', 'bs': 42}, {'role': 'init', 'bs': 42, 'resetOnLogon': True, 'maxEp': 2}, {'role': 'acc', 'bs': 42, 'resetOnLogout': True, 'maxEp': 2}, {'role': 'init', 'bs': 42, 'resetOnLogout': True}]
+BASE = [{'role': 'acc', 'bs': 42}, {'role': 'init', 'bs': 42, 'resetOnLogon': True}, {'role': 'acc', 'bs': 42, 'resetOnLogout': True}, {'role': 'init', 'bs': 42, 'resetOnLogout': True}, {'role': 'init', 'bs': 44, 'resetOnDisconnect': True}]
 ALT = [{'role': 'init', 'bs': 44, 'resetOnDisconnect': True}, {'role': 'acc', 'bs': 44, 'resetOnLogon': True}, {'role': 'init', 'bs': 40, 'resetOnLogon': True}, {'role': 'init', 'bs': 42}, {'role': 'acc', 'bs': 41, 'resetOnDisconnect': True}, {'role': 'init', 'bs': 44, 'resetOnLogout': True}, {'role': 'acc', 'bs': 50, 'resetOnLogon': True, 'resetOnLogout': True, 'resetOnDisconnect': True}]
 
 
@@ -18,7 +18,7 @@ def configs(ctx):
 
 def run(ctx):
     sessfam.standard_run(ctx, PID, FAMILY, PROPS, configs(ctx), quick_budget=15000, thorough_budget=250000,
-                         quick_bounds={'maxIn': 3, 'maxOut': 3, 'maxEp': 1}, thorough_bounds={'maxIn': 4, 'maxOut': 4, 'maxEp': 2},
+                         quick_bounds={'maxIn': 3, 'maxOut': 3, 'maxEp': 2}, thorough_bounds={'maxIn': 4, 'maxOut': 4, 'maxEp': 2},
                          statement='continuity, negotiated/configured resets, forward-only SequenceReset')
 
 
